@@ -8,6 +8,17 @@ for l in open('/verif/properties.jsonl'):
     p = json.loads(l)
     if p['id'] == pid:
         break
+import glob
+variants = sys.argv[2] if len(sys.argv) > 2 else "A,B"
+v1, v2 = variants.split(",")
+avoid = []
+for m in sorted(glob.glob('/verif/seeded/*/meta.json')):
+    j = json.load(open(m))
+    if j.get('property') == pid or pid in j.get('needs', '') + j.get('breaks', ''):
+        avoid.append("  - " + j['breaks'])
+avoid_txt = ""
+if avoid and (v1, v2) != ("A", "B"):
+    avoid_txt = "\nAn earlier round already used the following mechanisms for this property — do NOT repeat them or close variations of them; find different code paths:\n" + "\n".join(avoid) + "\n"
 print(f"""You are a software engineer asked to seed realistic defects into a Rust project so that verification tooling can be evaluated against them. Your own scratch git worktree of the project (pkolaczk/fclones, a duplicate-file finder; the crate is in the `fclones/` subdirectory) is at {wt}. Work ONLY inside {wt} and {out}; do not read or touch /repo, /verif or anything else outside those two directories (except the Rust toolchain and ~/.cargo registry sources, read-only). There is no network: nothing can be downloaded; `cargo ... --offline` works.
 
 The property the project is supposed to satisfy:
@@ -15,12 +26,13 @@ The property the project is supposed to satisfy:
   Statement: {p['statement']}
   Quantified over: {p['quantifier']['text']}
 
-Task: produce TWO independent changes (variants A and B, each a separate patch against the worktree's HEAD) to the project's source that each BREAK this property, while
+{avoid_txt}
+Task: produce TWO independent changes (variants {v1} and {v2}, each a separate patch against the worktree's HEAD) to the project's source that each BREAK this property, while
   (1) the crate still compiles (`cd {wt} && cargo build --offline`), and
   (2) the existing test suite, unedited, still passes (`cd {wt} && cargo test --workspace --no-fail-fast --offline`).
 Each change should look like a plausible refactoring, optimisation or well-meant fix gone wrong (small, a few lines), and must need something specific to manifest — a particular interleaving, a crash or fault at a particular point, a multi-step sequence of operations, an unusual input, or two cooperating sites that each look fine alone — not something ordinary use would expose at once. The two variants should attack different mechanisms. Do not edit tests. Do not edit code guarded by `#[cfg(fclones_verif)]`.
 
-For each variant V in {{A, B}} deliver in {out}/V/ :
+For each variant V in {{{v1}, {v2}}} deliver in {out}/V/ :
   - patch.diff  : `git diff` against HEAD; must apply to a clean checkout with `git apply`.
   - a demonstration: demo.sh (bash, offline, may call cargo to build the binary `fclones` or to run a temporary extra test file that the script itself copies into the worktree and removes again) that exits NON-ZERO with the patch applied and exits 0 without it. It takes the worktree path as $1 (default {wt}). For concurrency-related properties a deterministic demonstration is preferred (e.g. a small Rust test that copies the relevant source file and drives it with a controlled schedule, or uses barriers/sleeps generously); if only probabilistic, loop enough times to make it reliable and say so.
   - README.md   : what the change is, why it breaks the property, what exactly is needed for it to manifest, and the exact commands you ran with their outcome both WITH and WITHOUT the patch (build, full test suite, demo).
